@@ -50,6 +50,7 @@ func run(c *hk.Ctx) {
 	runChatty(c)
 	runErrorsReal(c)
 	runErrorCensus(c)
+	runInitialize(c)
 	runEcho(c)
 }
 
